@@ -454,8 +454,10 @@ def lemma(name, body, tags=()):
     return c
 
 
-def loop(relpath, qualname, ordinal, inv, modifies=(), types=None, elem=None, decreases=None, keeps=()):
+def loop(relpath, qualname, ordinal, inv, modifies=(), types=None, elem=None, decreases=None, keeps=(),
+         native_if_concrete=False):
     sp = LoopSpec(inv, modifies, types, elem, decreases, keeps=keeps)
+    sp.native_if_concrete = native_if_concrete
     _loader.declare_loop(relpath, qualname, ordinal, sp)
     return sp
 
